@@ -297,6 +297,9 @@ pub struct Emitter<'p> {
     in_multiclass: usize,
     cur_probe: Option<usize>,
     targ_has_default: Vec<DeclId>,
+    /// names declared more than once (a forward declaration and its definition): which of the
+    /// declarations a use of the NAME denotes is left open; members are judged normally
+    redeclared: Vec<String>,
 }
 
 pub fn emit(prog: &Program) -> Emitted {
@@ -317,6 +320,7 @@ pub fn emit(prog: &Program) -> Emitted {
         in_multiclass: 0,
         cur_probe: None,
         targ_has_default: Vec::new(),
+        redeclared: Vec::new(),
     };
     e.file_items(0);
     // files that are never included are still printed (they exist on disk) but have no semantics
@@ -393,6 +397,7 @@ impl<'p> Emitter<'p> {
     }
 
     fn use_as(&mut self, name: &str, target: Option<DeclId>, judged: bool, role: Role) {
+        let judged = judged && !(role == Role::ClassRef && self.redeclared.iter().any(|n| n == name));
         let s = self.pos();
         self.w(name);
         let r = (s, s + name.len());
@@ -989,6 +994,15 @@ impl<'p> Emitter<'p> {
                 let rec = self.recs.len();
                 self.recs.push(Rec { name: name.clone(), ..Default::default() });
                 let d = self.decl(DeclKind::Class, name, None, &Self::effective_doc(doc, *blank), None);
+                if self.classes.contains_key(name) {
+                    self.redeclared.push(name.clone());
+                    // neither declaration is judged as "the" declaration of the name
+                    for o in self.out.occs.iter_mut().filter(|o| o.is_decl && o.name == *name && o.role == Role::Decl) {
+                        if self.out.decls[o.target.unwrap()].kind == DeclKind::Class {
+                            o.judged = false;
+                        }
+                    }
+                }
                 self.classes.insert(name.clone(), rec);
                 self.class_decl.insert(rec, d);
                 self.scopes.push(Scope::Record { rec, vars: vec![] });
